@@ -1,4 +1,4 @@
-"""MMX/SSE part of the assembler-family checks C02 and C03: the generated corpus of checks/asmfam.py stops at the integer and x87 maps
+"""MMX/SSE part of the assembler-family checks C02, C03 and C09: the generated corpus of checks/asmfam.py stops at the integer and x87 maps
 (the hand-written spec decoder covers no MMX/SSE); here the reference is GNU objdump / GNU as, executed.
 
 Items: for every MMX/SSE table row x mandatory prefix {none, 66, F2, F3} x operand form {register, [eax], [esp+16], [ebx+esi*4+0x100], absolute}
@@ -6,6 +6,8 @@ the byte string b, kept when miasmX and objdump both read it as one instruction 
   C02-sse: every candidate c of asm(str(dis(b))) is read by objdump as the same instruction as b (same normalised text), with its full length
   C03-sse: dis accepts every candidate with its full length; b is among the candidates of asm(str(dis(b))) when GNU as maps objdump's text of b back
            to b (canonical encoding)
+  C09-sse: the Intel and the AT&T rendering of b are accepted by GNU as in the matching mode and assemble to the same instruction (objdump text);
+           the AT&T rendering re-parses with asm_att to a set containing b
 """
 import sys, os, re, binascii, multiprocessing
 from vlib import common
@@ -71,7 +73,31 @@ def _work(job):
         n += 1
         c, crash = asmfam.safe_asm(txt)
         cand_all.append(c)
-    if prop == 'C02':
+    if prop == 'C09':
+        # both renderings are valid GNU as input for the same instruction (compared through objdump), and re-parse with miasmX
+        for syn in ('intel', 'att'):
+            texts = []
+            for (b, txt, tn, r) in keep:
+                if syn == 'intel': texts.append(txt)
+                else:
+                    try: texts.append(x86mnemo.dis(b).__str__('att_syntax binutils').strip())
+                    except Exception as ex: texts.append(None); fail('sse-render-att', tn, b.hex(), 'AT&T rendering of %s (%s) raises %s' % (b.hex(), txt, type(ex).__name__))
+            idx = [k for k, t in enumerate(texts) if t is not None and not re.search(r'\b\d{6,}\b', t)]      # absolute numeric operands are exempt (property)
+            enc = asmgen.gnu_as([texts[k] for k in idx], syn)
+            back = C01sse.objdump_slots([e if e is not None and len(e) <= 15 else b'\x90' for e in enc])
+            for k, e, rb in zip(idx, enc, back):
+                b, txt, tn, r = keep[k]
+                if e is None:
+                    fail('sse-gas-%s-rejects' % syn, tn, b.hex(), 'GNU as (%s) rejects %r, the rendering of %s' % (syn, texts[k], b.hex()))
+                elif not same_text(rb, r):
+                    fail('sse-gas-%s-differs' % syn, tn, b.hex(), 'GNU as (%s) assembles %r to %s = %r, the original %s is %r' % (syn, texts[k], e.hex(), rb and rb[1], b.hex(), r[1]))
+            if syn == 'att':
+                for k in idx:
+                    b, txt, tn, r = keep[k]
+                    c, _ = asmfam.safe_asm(texts[k], True)
+                    if c is None or b not in c:
+                        fail('sse-att-parse', tn, b.hex(), '%s renders (AT&T) as %r, which assembles to %s' % (b.hex(), texts[k], [x.hex() for x in (c or [])][:3] if c is not None else 'an error'))
+    elif prop == 'C02':
         flat = [(k, x) for k, c in enumerate(cand_all) for x in (c or [])]
         refc = C01sse.objdump_slots([x for _, x in flat])
         for (k, x), rc in zip(flat, refc):
@@ -104,6 +130,16 @@ def replay(prop, hexbytes, clause):
     c, _ = asmfam.safe_asm(txt)
     print('%s: %r; objdump %r; asm -> %s' % (hexbytes, txt, r, [x.hex() for x in (c or [])] if c is not None else 'error'))
     bad = False
+    if prop == 'C09':
+        ta = ins.__str__('att_syntax binutils').strip()
+        gi = asmgen.gnu_as([txt], 'intel')[0]; ga = asmgen.gnu_as([ta], 'att')[0]
+        ri, ra = C01sse.objdump_slots([gi or b'\x90', ga or b'\x90'])
+        ca, _ = asmfam.safe_asm(ta, True)
+        print('  AT&T %r; GNU as intel -> %s %r; GNU as att -> %s %r; asm_att -> %s' % (ta, gi and gi.hex(), ri, ga and ga.hex(), ra, [x.hex() for x in (ca or [])] if ca is not None else 'error'))
+        if clause.startswith('sse-gas-intel'): bad = gi is None or not same_text(ri, r)
+        elif clause.startswith('sse-gas-att'): bad = ga is None or not same_text(ra, r)
+        elif clause == 'sse-att-parse': bad = ca is None or b not in ca
+        return 1 if bad else 0
     if prop == 'C02':
         for x, rc in zip(c or [], C01sse.objdump_slots(list(c or []))):
             if rc is None or rc[0] != len(x) or not same_text(rc, r):
